@@ -332,6 +332,46 @@ fn main() {
             report(format!("context/evaluates-differently: {} : {} vs {}", text, e1, e2));
             continue;
         }
+        // … and for what happens next: the same further operations on both (type-checked writes, clears, expressions)
+        {
+            let mut orig = c.clone();
+            let mut back2 = back.clone();
+            let mut diverged: Option<String> = None;
+            for _ in 0..4 {
+                let k = r.pick(&names).to_string();
+                let (what, ra, rb) = match r.below(5) {
+                    0 => {
+                        let v = random_value(&mut r, 1);
+                        (format!("set_value({:?}, {:?})", k, v), format!("{:?}", orig.set_value(k.clone(), v.clone())), format!("{:?}", back2.set_value(k, v)))
+                    },
+                    1 => {
+                        orig.clear_variables();
+                        back2.clear_variables();
+                        ("clear_variables()".to_string(), String::new(), String::new())
+                    },
+                    2 => {
+                        let src = *r.pick(&["a = a + 1", "b = (1, 2)", "x += 1.5", "a = \"s\"", "x1 = x01", "v1 *= 2", "a", "typeof(b)"]);
+                        (format!("eval_mut `{}`", src), format!("{:?}", evalexpr::eval_with_context_mut(src, &mut orig)), format!("{:?}", evalexpr::eval_with_context_mut(src, &mut back2)))
+                    },
+                    _ => {
+                        let v = random_value(&mut r, 0);
+                        (format!("set_value({:?}, {:?})", k, v), format!("{:?}", orig.set_value(k.clone(), v.clone())), format!("{:?}", back2.set_value(k, v)))
+                    },
+                };
+                evals += 2;
+                let (va, vb) = (sorted_vars(&orig), sorted_vars(&back2));
+                let same_vars = va.len() == vb.len() && va.iter().zip(&vb).all(|(p, q)| p.0 == q.0 && same_value(&p.1, &q.1));
+                // results are compared through Debug with NaN payloads normalised by Debug itself
+                if ra != rb || !same_vars {
+                    diverged = Some(format!("after {}: original {} / {:?}, round-tripped {} / {:?}", what, ra, va, rb, vb));
+                    break;
+                }
+            }
+            if let Some(d) = diverged {
+                report(format!("context/behaves-differently-afterwards: serialized {} : {}", text, d));
+                continue;
+            }
+        }
         // every word of the serialized text itself is a perfectly good variable name: whatever the format uses as a
         // key, marker or field name must not be confused with a variable of that name
         if i % 4 == 0 {
